@@ -28,10 +28,10 @@ def check(ctx):
     envs = [None] if ctx.quick else [None, "SONIC_USE_OPTDEC=1", "SONIC_ENCODER_USE_VM=1"]
     sums = []
     for i, env in enumerate(envs):
-        args = ["session", "-dump", g["dump"], "-out", sfile, "-seed", ctx.seed, "-stride", ctx.pick(11, 5 if i == 0 else 40)]
+        args = ["session", "-dump", g["dump"], "-out", sfile, "-seed", ctx.seed, "-stride", ctx.pick(11, 7 if i == 0 else 60)]
         if env:
             args += ["-env", env]
-        vf.vh(ctx, args, timeout=3000)
+        vf.vh(ctx, args, timeout=9000)
         s = json.load(open(sfile))
         s["env"] = env
         sums.append(s)
